@@ -299,7 +299,7 @@ func vfGenHistory(rt *rapid.T) *vfHistory {
 		// everything under /w/ (the content is small again: the syncer has to deliver that too)
 		h.noDelPrefix = true
 		cur = vfGenWrites(rt, h, cur, rapid.IntRange(0, 4).Draw(rt, "nA"), "a.")
-		if rapid.IntRange(0, 3).Draw(rt, "hugeShrinks") == 0 {
+		if rapid.SampledFrom([]bool{false, false, false, true}).Draw(rt, "hugeShrinks") {
 			h.HugeShrinks = true
 			cur = vfCopyState(cur)
 			for k := range cur {
